@@ -76,6 +76,15 @@ func runC16(c *Ctx) {
 	r.SetEq("C16-M1", "context fields advanced in the compact branch: encoder = decoder", "", norm(dc, "m."), norm(ec, "p0."), nil, nil)
 	r.Check("C16-M1", "the compact branch advances exactly the index, once per entry", "", len(ec) == 1 && ec["index"] == "<inc>" && dc["index"] == "<inc>", fmt.Sprintf("encoder %v decoder %v", ec, dc))
 
+	// ... and these stores happen on every successful path through the full-message branch
+	okRet := an.Return().Where("success", func(u *an.Unit, s *an.Site) bool { return !an.ErrorReturn(u, s) && an.LastResultNil(u, s) })
+	for _, f := range []string{"term", "index", "ToGroup", "FromGroup"} {
+		r.Order("C16-M1", enc, okRet, []an.M{an.StorePlain("transport/rafthttp.msgAppV2Encoder." + f)},
+			an.OrderOpts{Assume: "!recv.isContinue(p0) && !rafthttp.isLinkHeartbeatMessage(p0)", SkipErrEdges: true, Min: 1})
+		r.Order("C16-M1", dec, okRet, []an.M{an.StorePlain("transport/rafthttp.msgAppV2Decoder." + f)},
+			an.OrderOpts{Assume: "rafthttp.msgTypeApp == typ && !(rafthttp.msgTypeLinkHeartbeat == typ) && !(rafthttp.msgTypeAppEntries == typ)", SkipErrEdges: true, Min: 1})
+	}
+
 	// M2
 	if u := c.unit("C16-M2", "transport/rafthttp.(*msgAppV2Encoder).isContinue"); u != nil {
 		r.ReturnFormula("C16-M2", u, "recv.index == p0.Index && recv.term == p0.LogTerm && p0.LogTerm == p0.Term && rafthttp.isSameGroup(&recv.ToGroup, &p0.ToGroup) && rafthttp.isSameGroup(&recv.FromGroup, &p0.FromGroup)", an.ActualImpliesWant)
